@@ -16,10 +16,11 @@ use mithril_common::certificate_chain::{
 use mithril_common::crypto_helper::GenesisVerifier;
 use mithril_common::entities::Certificate;
 
-use crate::oracle::{NodeFacts, is_pure_forward_epoch_link, link_defect, node_facts};
+use crate::oracle::{ANCHORED_ONLY_IN_UNSIGNED_GENESIS_FIELDS, NodeFacts, is_pure_forward_epoch_link, link_defect, node_facts};
 use crate::pool::Pool;
 
 pub const KEY_FORWARD: &str = "C03/forward-epoch-link-accepted";
+pub const KEY_GENESIS_FIELDS: &str = "C03/genesis-epoch-certificate-anchored-only-in-unsigned-genesis-fields";
 
 /// provider double: answers every request with the certificate the explorer put in the slot
 pub struct SlotRetriever {
@@ -162,6 +163,13 @@ pub fn judge_step(
                     format!(
                         "{ctx} a link from epoch {} to a certificate of the FOLLOWING epoch {} (the property allows the same or the immediately preceding epoch only)",
                         c.epoch.0, a.epoch.0
+                    ),
+                )),
+                Some(ANCHORED_ONLY_IN_UNSIGNED_GENESIS_FIELDS) => Some((
+                    KEY_GENESIS_FIELDS.into(),
+                    format!(
+                        "{ctx} a link, inside epoch {}, to a genesis certificate whose aggregate key / parameter FIELDS equal the certificate's while its genesis-signed protocol message commits to another key or other parameters: nothing signed by the genesis key vouches for the certificate's signer set",
+                        c.epoch.0
                     ),
                 )),
                 Some(d) => Some((format!("C03/link-accepted:{d}"), format!("{ctx} an invalid link: {d} (epochs {} -> {})", c.epoch.0, a.epoch.0))),
@@ -395,6 +403,8 @@ pub struct ChainDefect {
     pub is_node: bool,
     /// members from the start down to `at` (inclusive)
     pub path: Vec<usize>,
+    /// for a link defect: the member the link resolves to
+    pub parent: Option<usize>,
 }
 
 /// Reference: is the hash-linked chain from each member valid down to a valid genesis? Links are
@@ -418,7 +428,7 @@ pub fn chain_defects(certs: &[&Certificate], facts: &[NodeFacts]) -> Vec<Option<
                 let here = if cur == start { "the certificate itself".to_string() } else { format!("certificate {} (epoch {}) {} step(s) down the chain", &c.hash[..8.min(c.hash.len())], c.epoch.0, path.len() - 1) };
                 if let Some(d) = f.first_defect() {
                     let key = if f.is_genesis { format!("C03/genesis-accepted:{d}") } else { format!("C03/certificate-accepted:{d}") };
-                    return Some(ChainDefect { key, text: format!("{d} at {here}"), at: cur, is_node: true, path });
+                    return Some(ChainDefect { key, text: format!("{d} at {here}"), at: cur, is_node: true, path, parent: None });
                 }
                 if f.is_genesis {
                     return None;
@@ -430,20 +440,23 @@ pub fn chain_defects(certs: &[&Certificate], facts: &[NodeFacts]) -> Vec<Option<
                         at: cur,
                         is_node: false,
                         path,
+                        parent: None,
                     });
                 };
                 if let Some(d) = link_defect(c, certs[p]) {
                     let text = format!("{d}: link of {here} to a certificate of epoch {}", certs[p].epoch.0);
                     let key = if d == "link-to-following-epoch" && is_pure_forward_epoch_link(c, certs[p]) {
                         KEY_FORWARD.to_string()
+                    } else if d == ANCHORED_ONLY_IN_UNSIGNED_GENESIS_FIELDS {
+                        KEY_GENESIS_FIELDS.to_string()
                     } else {
                         format!("C03/link-accepted:{d}")
                     };
-                    return Some(ChainDefect { key, text, at: cur, is_node: false, path });
+                    return Some(ChainDefect { key, text, at: cur, is_node: false, path, parent: Some(p) });
                 }
                 cur = p;
             }
-            Some(ChainDefect { key: "C03/accepted-links-form-a-cycle".into(), text: "no genesis certificate is ever reached".into(), at: start, is_node: false, path })
+            Some(ChainDefect { key: "C03/accepted-links-form-a-cycle".into(), text: "no genesis certificate is ever reached".into(), at: start, is_node: false, path, parent: None })
         })
         .collect()
 }
